@@ -53,7 +53,7 @@ def run_cases(chk, binp, cases, pf_ok, pf):
     have = [r for r in recs if r.get("sx") and not r.get("skip")]
     outs = C.run_model("walk", [r["sx"] for r in have])
     model = {r["id"]: set(C.parse_sx(o)) for r, o in zip(have, outs)}
-    viol, tie, findings, unused = [], [], [], []
+    viol, tie, findings, unused, collided = [], [], [], [], []
     cov = {"places": 0, "with_value": 0, "rejected": 0, "accepted": 0, "by_container": {}, "by_descent": {}, "max_depth": 0,
            "skipped_by_heuristic": 0, "documents_first_pass_invalid": 0, "order_sensitive_documents": 0}
     for r in recs:
@@ -106,6 +106,10 @@ def run_cases(chk, binp, cases, pf_ok, pf):
             if s["judged"] == 2 and s["group"] not in dup and s["id"] not in rep and not any(m in go_msgs[s["kind"]] for m in s["msgs"]):
                 cov["skipped_by_heuristic"] += 1
                 findings.append((c, s))
+        # two places of one group with the same dotted path (a -> b and "a.b"): the one met second counts as visited
+        for s in sites:
+            if s["judged"] == 2 and s["group"] in dup and not any(m in go_msgs[s["kind"]] for m in s["msgs"]):
+                collided.append((c, s))
         for s in r.get("unwalked") or []:
             if s["judged"]:
                 key = "%s of unreferenced shared %s" % (s["kind"], s["where"])
@@ -133,8 +137,12 @@ def run_cases(chk, binp, cases, pf_ok, pf):
             if not others:
                 stop = runs["cont=false"]
                 stop_ex = set(stop["warnings"]) | set(stop["errs_warnings"])
-                lost = sorted(m for m in go_msgs["example"] if ".example" in m and m in explained and m not in stop_ex)
-                lost_d = sorted(m for m in full["errors"] if m in explained and m not in set(stop["errors"]))
+                steady = set()          # messages of places outside the order-sensitive groups
+                for s in sites:
+                    if s["judged"] == 2 and s["group"] not in dup:
+                        steady.update(s["msgs"])
+                lost = sorted(m for m in go_msgs["example"] if ".example" in m and m in steady and m not in stop_ex)
+                lost_d = sorted(m for m in full["errors"] if m in steady and m not in set(stop["errors"]))
                 if lost or lost_d:
                     viol.append((c, "a rejected %s is reported with continue-on-errors only, although no earlier pass reports an error"
                                  % ("example" if lost else "default"), {"missing_without_continue_on_errors": (lost or lost_d)[:4]}))
@@ -149,6 +157,11 @@ def run_cases(chk, binp, cases, pf_ok, pf):
             break
         chk.finding_or_violation(why, "the %s of %s at path %s is rejected by its schema and not reported: the path is taken for an already visited one"
                                % (s["kind"], s["where"], s["path"]), payload)
+    for c, s in collided[:1]:
+        chk.finding_or_violation("visited-path-collision",
+                                 "the %s of %s at path %s is rejected by its schema and not reported: another place of the same walk has the same dotted path"
+                                 % (s["kind"], s["where"], s["path"]),
+                                 {"case": {"doc": c["doc"], "origin": c["origin"]}, "place": {k: s[k] for k in ("kind", "where", "via", "path", "msgs")}})
     for c, s in unused[:1]:
         chk.finding_or_violation("unreferenced-shared-declaration",
                                  "the %s of the %s %s, declared under #/parameters or #/responses and referred to by no operation, is rejected by its schema and not reported"
